@@ -2,6 +2,7 @@
    generated case file CasesC02.v; executable definitions only) *)
 From Coq Require Import ZArith.
 From KM Require Import Base.Bytes Model.Auth Model.Certgen Model.CertgenCases.
+From KM Require Proofs.CertgenSpec.
 From KM Require Model.Seal.
 Open Scope N_scope.
 
@@ -23,7 +24,9 @@ Record observed := {
   o_orgs : list bs;             (* sorted *)
   o_groups : list bs;           (* sorted *)
   o_methods : list bs;          (* sorted *)
-  o_krb : option (bs * bs) }.
+  o_krb : option (bs * bs);
+  o_other_names : list bs }.    (* every other identity found in the decoded certificate, tagged ("dns:...", "email:...",
+                                   "uri:...", "ip:...", "dirname", "othername:<oid>", "ou:...", "cn#2:...", "critical:...") *)
 
 Fixpoint list_bs_eqb (a b : list bs) : bool :=
   match a, b with
@@ -62,7 +65,8 @@ Definition desc_matches (d : certdesc) (o : observed) : bool :=
   Bool.eqb (has_eku EkuPkinitClient (d_ekus d)) (o_eku_pkinit o) &&
   exts_eqb (d_exts d) (o_exts o) && (d_signer d =? o_signer o) &&
   list_bs_eqb (d_orgs d) (o_orgs o) && list_bs_eqb (d_groups d) (o_groups o) &&
-  list_bs_eqb (d_methods d) (o_methods o) && opt_pair_eqb (d_krb d) (o_krb o).
+  list_bs_eqb (d_methods d) (o_methods o) && opt_pair_eqb (d_krb d) (o_krb o) &&
+  list_bs_eqb (d_other_names d) (o_other_names o).
 
 Definition outcome_matches (r : outcome) (o : observed) : bool :=
   match r with
@@ -94,13 +98,14 @@ Definition c02_keycfg (c : c02case) : Seal.cfg :=
      Seal.ed_file := if k_ed_ca c then Some (key_pass, 2, Seal.FGood) else None; Seal.extra_pubkeys := k_extra c |}.
 Definition c02_server (c : c02case) : server :=
   {| s_keys := fst (Seal.unseal_ca (c02_keycfg c) (Seal.sealed_init (c02_keycfg c)) key_pass);
-     s_cfg := [sU2F]; s_name := fun _ => k_user c; s_host := k_host c;
+     s_cfg := [sU2F]; s_name := fun _ => k_user c; s_host := k_host c; s_addr := s_port443;
      s_templates := k_templates c; s_realm := k_realm c;
      s_groups := fun _ => k_groups c; s_methods := fun _ => k_methods c |}.
 
 Definition c02_outcome (c : c02case) : outcome :=
   let st := c02_server c in
-  let q := {| q_method := HPost; q_origin := NoOrigin; q_tls := None; q_cred := Cookie (tok 1 bU2F);
+  let q := {| q_method := HPost; q_origin := NoOrigin; q_tls := None;
+              q_cookie := Some (with_claims (tok 1 bU2F) (issuer_of st) [issuer_of st]); q_basic := None;
               q_target := k_target c; q_type := type_of_index (k_type c); q_form_ok := true;
               q_key := k_key c; q_add_groups := k_add_groups c |} in
   certgen (fun t _ => lookup_opt (k_expansions c) t) st 0%Z true q.
@@ -115,3 +120,41 @@ Definition c02_model_published (c : c02case) : bool :=
 
 Definition c02_bad (c : c02case) : bool :=
   negb (outcome_matches (c02_outcome c) (k_obs c) && c02_model_published c).
+
+(* ---- the property's predicate on the OBSERVED answer of a case (evaluated by the generated case file
+   on every case on which implementation and model differ).  It is written against the SPECIFICATION
+   (Proofs/CertgenSpec.v spec_ext; the request of a case is a valid U2F session of k_user), not against
+   certgen: the conclusions of c02_binding, c02_other_user_refused, c02_extensions and
+   c02_failed_expansion_refused evaluated on what came back.
+   0 = the observation satisfies the property; 1 = a certificate for a request on behalf of another
+   name; 2 = the certificate does not name exactly the authenticated user; 3 = it does not certify the
+   submitted key; 4 = not an end-entity user certificate; 5 = does not verify under what the server
+   publishes; 6 = the SSH extension map is not exactly the five standard names plus every configured
+   template expanded for the user (a template that cannot be expanded: nothing may be issued);
+   7 = neither a certificate nor an error; 8 = the certificate carries a further identity beside the
+   authenticated user's name *)
+Definition is_some {A} (o : option A) : bool := match o with Some _ => true | None => false end.
+Definition exts_violate (expand : bs -> bs -> option bs) (tpl : list (bs * bs)) (user : bs) (obs : list (bs * bs)) : bool :=
+  negb (forallb (fun kv => is_some (expand (fst kv) user) && is_some (expand (snd kv) user)) tpl) ||
+  negb (forallb (fun kv => opt_bs_eqb (CertgenSpec.spec_ext expand tpl user (fst kv)) (Some (snd kv))) obs) ||
+  negb (forallb (fun k => opt_bs_eqb (CertgenSpec.spec_ext expand tpl user k) (lookup obs k))
+                (std5 ++ map (fun kv => match expand (fst kv) user with Some k => k | None => [] end) tpl)).
+Definition c02_violation (c : c02case) : N :=
+  let o := k_obs c in
+  let st := c02_server c in
+  if negb (o_issued o) then (if o_error o then 0 else 7)
+  else if negb (bs_eqb (k_user c) (k_target c)) then 1
+  else if negb (list_bs_eqb (o_names o) [k_user c]) then 2
+  else if negb (list_bs_eqb (o_other_names o) []) then 8
+  else if negb (match k_key c with Some (k, _) => o_key o =? k | None => false end) then 3
+  else if negb (o_user_type o) || o_is_ca o || (negb (o_ssh o) && negb (o_eku_client o)) then 4
+  else if negb (Seal.mem (o_signer o) (if o_ssh o then published_ssh st else published_x509 st)) then 5
+  else if o_ssh o && exts_violate (fun t _ => lookup_opt (k_expansions c) t) (k_templates c) (k_user c) (o_exts o) then 6
+  else 0.
+(* (index, violation class) of every mismatching case *)
+Fixpoint c02_diffv_from (l : list c02case) (i : nat) : list (nat * N) :=
+  match l with
+  | [] => []
+  | c :: r => if c02_bad c then (i, c02_violation c) :: c02_diffv_from r (S i) else c02_diffv_from r (S i)
+  end.
+Definition c02_filter_violating (l : list (nat * N)) : list (nat * N) := filter (fun p => negb (snd p =? 0)) l.
